@@ -94,6 +94,16 @@ def generate(rng, tier):
         else:
             dw = F(rng.choice([float(rng.randint(1, 3000)), rng.uniform(0.5, 3000)])); dh = F(rng.choice([float(rng.randint(1, 3000)), rng.uniform(0.5, 3000)]))
         cases.append({"vb": vb, "par": _par(rng), "dw": dw, "dh": dh, "family": fam})
+        if fam.startswith("valid") and dw > 0 and dh > 0 and rng.random() < 0.12:
+            c2 = dict(cases[-1])
+            if rng.random() < 0.25:            # pages far below a thousandth of a unit
+                c2["dw"], c2["dh"] = F(rng.choice([0.0004, 0.0003])), F(rng.choice([0.0004, 0.00025])); c2["pre_doc"] = (F(0.0002), F(0.0001))
+            else:
+                e1, e2 = rng.choice([(0.0003, 0.0), (0.0004, -0.0002), (-0.0002, 0.0004), (0.0, 0.00045)])
+                c2["dw"] = F(round(float(dw), 3)); c2["dh"] = F(round(float(dh), 3))
+                c2["pre_doc"] = (F(float(c2["dw"]) + e1), F(float(c2["dh"]) + e2))
+            if c2["dw"] > 0 and c2["dh"] > 0 and c2["pre_doc"][0] > 0 and c2["pre_doc"][1] > 0:
+                c2["family"] = fam + "/after-a-call-for-nearly-the-same-page"; cases.append(c2)
     # extreme but legal magnitudes: page and viewBox sizes around 1e200 (products of two of them are not doubles) or 1e-170 (products
     # underflow to zero), every alignment with meet and slice, both relative shapes; the ratios the function needs are all ordinary
     for mag in ("1e200", "2e200", "1e-170", "3e-170", "1e154", "1e-162"):
@@ -108,6 +118,10 @@ def generate(rng, tier):
 def run_impl(c):
     dw = float(c["dw"]) if c["dw"].denominator != 1 else int(c["dw"])
     dh = float(c["dh"]) if c["dh"].denominator != 1 else int(c["dh"])
+    if "pre_doc" in c:
+        # the same viewBox and preserveAspectRatio were scaled a moment ago for a page of nearly, not exactly, the same size
+        try: plot_utils.vb_scale(c["vb"], c["par"], float(c["pre_doc"][0]), float(c["pre_doc"][1]))
+        except Exception: pass
     r = plot_utils.vb_scale(c["vb"], c["par"], dw, dh)
     return {"r": [F(x) for x in r]}
 
